@@ -149,6 +149,8 @@ pub enum CloseBehaviour {
     CloseOk,
     /// CloseOk and then the server closes the socket
     CloseOkThenEof,
+    /// CloseOk and, in the same transmission, these frames (a server that keeps talking)
+    CloseOkThen(Vec<AMQPFrame>),
     /// never answer
     Silent,
     /// CloseOk after this much virtual time (ns)
@@ -597,7 +599,13 @@ impl StdBroker {
                     if self.silent_after_handshake {
                         return;
                     }
-                    match self.close_behaviour {
+                    match self.close_behaviour.clone() {
+                        CloseBehaviour::CloseOkThen(fs) => {
+                            out.frame(&AMQPFrame::Method(0, AMQPClass::Connection(connection::AMQPMethod::CloseOk(connection::CloseOk {}))));
+                            for f in &fs {
+                                out.frame(f);
+                            }
+                        }
                         CloseBehaviour::CloseOk => out.frame(&AMQPFrame::Method(0, AMQPClass::Connection(connection::AMQPMethod::CloseOk(connection::CloseOk {})))),
                         CloseBehaviour::CloseOkThenEof => {
                             out.frame(&AMQPFrame::Method(0, AMQPClass::Connection(connection::AMQPMethod::CloseOk(connection::CloseOk {}))));
